@@ -23,6 +23,9 @@ necessary to account for:
 """
 
 
+from tangelo.linq.gate import Gate
+
+
 def get_qdk_gates():
     """Map gate name of the abstract format to the equivalent gate name used in
     Q# operations API and supported gates:
@@ -85,7 +88,8 @@ def translate_c_to_qsharp(source_circuit, operation="MyQsharpOperation", save_me
             for i, c in enumerate(gate.control):
                 control_string += f'qreg[{c}]]' if i == num_controls - 1 else f'qreg[{c}], '
             if num_controls > 1 and gate.name == 'CNOT':
-                gate.name = 'CX'
+                # Work on a renamed copy: the gate of the source circuit must not be altered
+                gate = Gate('CX', gate.target, gate.control, gate.parameter, gate.is_variational)
 
         if gate.name in {"H", "X", "Y", "Z", "S", "T"}:
             body_str += f"\t\t{GATE_QDK[gate.name]}(qreg[{gate.target[0]}]);\n"
